@@ -130,6 +130,17 @@ theorem skel_Rpc_remove_request : Gen.Skel.Rpc_remove_request =
 theorem skel_Rpc_remove_response : Gen.Skel.Rpc_remove_response =
   ["if", "r:_response", "then", "del:_response[]", "endif"] := by decide
 
+/-- **The reader never waits for a caller.**  A caller holds `channel.lock` (consume, cancel, get) or
+    the RPC lock for the whole round trip of its request, waiting for the reader to dispatch the
+    reply.  None of the handlers the reader runs for a frame of this channel — `on_frame`, the RPC
+    hand-over, the handlers of unprompted Basic.Cancel / Basic.Return / Channel.Close — acquires a
+    lock, so the reply behind an unprompted frame is always dispatched (the premise of `progress`:
+    a dispatched reply is all the caller waits for).  Regenerated skeletons. -/
+theorem reader_takes_no_lock :
+    ∀ m ∈ ["Channel_on_frame", "Rpc_on_frame", "Channel__basic_cancel", "Channel__basic_return",
+           "Channel__close_channel", "BaseChannel_remove_consumer_tag", "BaseChannel_add_consumer_tag"],
+      Gen.Skel.acquires.lookup m = some [] := by decide
+
 theorem skel_Channel_on_frame : Gen.Skel.Channel_on_frame =
   ["if", "then", "if", "call:_skip_returned_content", "then", "return", "endif", "endif", "if",
     "call:rpc.on_frame", "then", "return", "endif", "if", "then", "r:_inbound",
